@@ -430,11 +430,17 @@ func (c *RetryClient) Resubscribe(ctx context.Context) {
 		oldSubEstablished := append([]Subscription{}, c.subEstablished...)
 		c.subEstablished = nil
 
+		// Established subscriptions are the result of already attempted requests.
+		// Restore them ahead of the pending requests, which may change them again.
+		pendingRetryQueue := c.retryQueue
+		c.retryQueue = nil
+
 		if len(oldSubEstablished) > 0 {
 			for _, sub := range oldSubEstablished {
 				c.subscribe(ctx, true, cli, sub)
 			}
 		}
+		c.retryQueue = append(c.retryQueue, pendingRetryQueue...)
 	})
 }
 
